@@ -159,6 +159,7 @@ var propertyConfigs = map[string]*propertyConfig{
 			"rows of different index are disjoint storage; the callee kernels' frames are themselves proved (vec_ops.go, property C01)",
 			"NOT decided: value-level aliasing insensitivity and absence of residue at the scheme level",
 			"evaluator level, one clause (abstract contracts, go/ssa): after a scalar Add / Sub / Mul of the CKKS evaluator and a big-integer Add / Mul of the BGV evaluator the output element has exactly as many components as the input, whatever degree it had before (Element.Resize is ASSUMED to leave degree+1 components; input degree bounded by 2 for the unwinding); the other operand kinds and operations are not covered",
+			"NewPoly (abstract contract, BOUNDED instance: at most three rows): every row is its own allocation with length and capacity N",
 			"readonly (structural): the big-number operand of the BGV / CKKS evaluator operations (Add ... MulRelinThenAdd) is never the receiver of a mutating math/big / bignum method inside the operation itself (aliases through the type switch are followed); callees that receive the operand are not followed",
 		},
 		Trusted: stdTrusted, Simple: copyAndLanes("C09"),
